@@ -10,7 +10,10 @@ def observe(tier):
     d = C.fresh_dir(os.path.join(C.BUILD, "registry"))
     cfg = CFG[tier]
     g = C.TlcGen("OdmlRegistry.tla", cfg, "registry", workers=8)
-    n, files = par.replay_stream(g.chunks(100), "harness.registry", os.path.join(d, "R"), shard=8000)
+    import itertools
+    # besides the sampled histories: the base document validated in 12 other processes with 12 different hash seeds
+    xp = [[{"hist": ["default_validate"], "xp": k} for k in range(0, 12)]]
+    n, files = par.replay_stream(itertools.chain(g.chunks(100), xp), "harness.registry", os.path.join(d, "R"), shard=8000)
     return {"judge": [("JudgeRegistry.tla", "JudgeRegistry.cfg", files)],
             "tlc": [{"cfg": cfg, "cmd": g.describe(), "states": g.stats["distinct"], "transitions": g.n_lines, "wall_s": round(g.wall, 1)}],
             "records": {"R": n},
